@@ -237,6 +237,7 @@ def gen_cases(ctx):
          'geo': {'kind': 'multilinear', 'coeffs': co, 'A': [[str(v) for v in row] for row in Ash], 'o': ['0', '0', '0']}})
     dist['geo']['sheared-cube-fixed'] = 1
     ngeo = 30 if th else 6
+    nori = {'quad': 0, 'para3': 0}
     for c in range(ngeo):
         which = ['quad', 'para3', 'quad', 'annulus', 'bannulus', 'twisted', 'quad'][c % 7]
         d = 3 if which in ('para3', 'twisted') else 2
@@ -257,8 +258,10 @@ def gen_cases(ctx):
                     a, b, cc = poly[i], poly[(i + 1) % 4], poly[(i + 2) % 4]
                     cr.append((b[0] - a[0]) * (cc[1] - b[1]) - (b[1] - a[1]) * (cc[0] - b[0]))
                 # orientation alternates deterministically (|det J| must be used, not det J)
-                if (all(x > 0 for x in cr) and c % 2 == 0) or (all(x < 0 for x in cr) and c % 2 == 1):
+                # (counted per kind: the first quadrilateral of every run reverses the orientation)
+                if (all(x > 0 for x in cr) and nori['quad'] % 2 == 1) or (all(x < 0 for x in cr) and nori['quad'] % 2 == 0):
                     break
+            nori['quad'] += 1
             g = {'kind': 'multilinear', 'coeffs': [[[float(P00[0]), float(P00[1])], [float(P10[0]), float(P10[1])]],
                                                    [[float(P01[0]), float(P01[1])], [float(P11[0]), float(P11[1])]]],
                  'poly': [[str(v) for v in q] for q in poly]}
@@ -267,8 +270,10 @@ def gen_cases(ctx):
                 A = [[F(rng.randint(-6, 6), 4) for _ in range(3)] for _ in range(3)]   # columns = edge vectors ex, ey, ez
                 det = (A[0][0] * (A[1][1] * A[2][2] - A[2][1] * A[1][2]) - A[0][1] * (A[1][0] * A[2][2] - A[1][2] * A[2][0])
                        + A[0][2] * (A[1][0] * A[2][1] - A[1][1] * A[2][0]))
-                if abs(det) >= F(1, 4):
+                # the first parallelepiped of every run contains a reflection (det < 0), then alternating
+                if abs(det) >= F(1, 4) and ((det < 0) == (nori['para3'] % 2 == 0)):
                     break
+            nori['para3'] += 1
             o = [F(rng.randint(-4, 4), 4) for _ in range(3)]
             co = [[[[float(o[r] + ix * A[r][0] + iy * A[r][1] + iz * A[r][2]) for r in range(3)]
                     for ix in range(2)] for iy in range(2)] for iz in range(2)]
